@@ -1,5 +1,5 @@
 PROP = {
-    "groups": ["relayneg"],
+    "groups": ["relayneg", "e2e-tmux-relay"],
     "rule": "the REAL relay: (a) handshake() run through the export on relays with every tmux mode / known and unknown pane "
             "width / Windows-server flag: every client capability set (binary, support_dir, fork, tunnel each absent/false/true x "
             "protocol absent,0..9 x newline absent,\\n,!\\n) against a corpus with every server option, then random ACT x CFG "
@@ -9,7 +9,7 @@ PROP = {
             "CFG, Ctrl-C during the handshake; end marker whole or split across two reads), each followed by a fresh trigger, "
             "status word, tunnelConnected flag and forwarding (raw / re-tagged / parked) compared after every chunk; the same with transfers over a REAL loopback tunnel (SetTunnelConnector, the client connects to the port the relay announces; ended by EXIT / #fail: / #FAIL: on the tunnel, Ctrl-C on the terminal, or refused) and with clients that claim a tunnel and decline, each followed by plain transfers through the same relay: no ACT offering binary without the tunnel and no unparked ACT may reach the server; (a2) the FRAMING of the handshake (fn handshake2, VerifRelayHandshake2): every Go client (on Windows / not, Windows server / not, tunnel / not) x relay outside tmux / tmux normal / tmux control x remembered clientIsWindows x confirmed / refused / no CFG / undecodable ACT, all mismatched framings (garbled and blocked readers), random objects with random framings - outcome, status, terminator of every line the relay sends, clientIsWindows afterwards; oracles relay-client-terminator, relay-server-terminator, relay-handshake-failed; (d) chains of 1-4 relays; (f) end to end: the real client as a client on Windows and as a Unix client through 1-2 real relays against the real trz/tsz must complete with identical content; (e) the real "
             "server prefix of trz (recvAction, capability checks, sendConfig). Every case exercises a rewrite or a status "
-            "change, so all are non-trivial; distinct = distinct input line",
+            "change, so all are non-trivial; distinct = distinct input line ; group e2e-tmux-relay: the real `trzsz -r` inside a real tmux pane: the CFG line as the client read it carries tmux_output_junk, the relay's pane width and binary=false also for trz/tsz -b; consecutive transfers and a stopped one through the same relay, which then exits cleanly",
     "trusted": ["modelled, not verified: JSON text <-> object (the model starts at 'key absent/null or present with a typed value'; "
                 "type errors and invalid base64/zlib are one class 'undecodable line'); the trigger detector is an oracle bit per "
                 "server chunk (its behaviour is C06); what is parked during a handshake and flushed afterwards is C13; the tunnel "
